@@ -12,10 +12,12 @@
 //     decorated, and every byte string over an 18-symbol parse alphabet up to length L, x bases x all 20
 //     to_* integer overloads against the libc function of the same family.
 #define VF_MAIN_TU
+#include "early.h"
 #include "verif.h"
 #include "alloc.h"
 #include "ref_num.h"
 #include "st_format.h"
+#include "early_battery.h"
 #include <climits>
 #include <memory>
 #include <type_traits>
@@ -703,6 +705,7 @@ static void build(vf::Plan &plan, const vf::Opts &o)
                        return strf("text[%zu]=%s", t.size(), vf::vis(t).c_str());
                    });
     }
+    vf_early::add_stage(plan);
 }
 
 VF_MAIN("C12", build)
